@@ -62,6 +62,23 @@ def check_writers(run, repo, eff):
     got = direct_priv_writers(eff)
     allowed = set(GATED) | SYNDROME_WRITERS | {('Registers', n) for n in ENTRY} | {('ArmV6', 'take_reset'),
               ('Registers', 'set_spsr'), ('Registers', '__init__'), ('ArmV6', '__init__'), ('Registers', 'select_instr_set')}
+    # private helpers that are called from the constructors only are constructor code
+    callers = {}
+    for k, sm in eff.direct.items():
+        for c in sm.calls:
+            callers.setdefault(c, set()).add(k)
+    ctor_only = set()
+    changed = True
+    while changed:
+        changed = False
+        for key in got:
+            if key in ctor_only or not key[1].startswith('_') or key[1].startswith('__'):
+                continue
+            cs = callers.get(key, set())
+            if cs and all(c[1] == '__init__' or c in ctor_only for c in cs):
+                ctor_only.add(key)
+                changed = True
+    allowed |= ctor_only
     ok = True
     for key, w in sorted(got.items()):
         good = key in allowed
